@@ -374,6 +374,31 @@ func Check(opts Options) int {
 	for m := range rr.Prog.Models {
 		trusted = append(trusted, "library model: "+m)
 	}
+	// entry preconditions that no call site verified in this run had to establish are assumptions about the callers
+	for _, f := range rr.Funcs {
+		fc := rr.Prog.Contracts.Funcs[f.ID]
+		if fc == nil || fc.Trusted || fc.Abstract || len(fc.Requires) == 0 {
+			continue
+		}
+		others := 0
+		for u := range fc.UsedBy {
+			if u != f.Func {
+				others++ // a recursive call does not count: it assumes the precondition it establishes
+			}
+		}
+		if others > 0 {
+			continue
+		}
+		var srcs []string
+		for _, cl := range fc.Requires {
+			srcs = append(srcs, cl.Src)
+		}
+		a := "precondition assumed of the callers of " + f.Func + " (no call site verified in this run establishes it): " + strings.Join(srcs, " && ")
+		if len(a) > 600 {
+			a = a[:600] + "..."
+		}
+		assumed[a] = true
+	}
 	trusted = append(trusted,
 		"SMT solvers z3 4.8.12, z3 5.1.0, cvc5 1.0.3 (an obligation is discharged when one answers unsat and none answers sat)",
 		"govc's own symbolic semantics of the accepted Go subset (DESIGN.md section 2)",
